@@ -320,11 +320,11 @@ def run(ctx: Ctx) -> None:
     ]
     if not ctx.quick:
         jobs += [
-            ("ham_3full", cfg_text(3, 9, 3, "cNoJumps", True, False, True)),
+            ("ham_3wide", cfg_text(3, 3, 3, "cNoJumps", True, False, True)),
             ("ham_4", cfg_text(4, 2, 1, "cNoJumps", True, False, True)),
-            ("lind_2full", cfg_text(2, 2, 1, "cJumpsFull", False, True, True)),
+            ("lind_2mid", cfg_text(2, 2, 1, "cJumpsMid", False, True, True)),
         ]
-    heavy = {"lind_2": 4, "lind_2full": 8, "ham_3full": 4, "ham_4": 4, "ham_3": 2}
+    heavy = {"lind_2": 8, "lind_2mid": 8, "ham_3wide": 4, "ham_4": 4, "ham_3": 2}
 
     def job(j):
         return run_tlc("MCSVOperator", None, workdir=ctx.work, name=j[0], cfg_text=j[1], workers=min(heavy.get(j[0], 1), max(1, procs // 2)), coverage=True, timeout=3000)
@@ -334,19 +334,21 @@ def run(ctx: Ctx) -> None:
         results = list(ex.map(job, jobs))
     probes = []
     model_bad = []
+    never = None          # actions taken in NO configuration (each configuration switches one operator off by design)
     for j, res in zip(jobs, results):
         ctx.add_tlc(res)
         ctx.log(f"TLC {j[0]}: {res.get('distinct')} states, {res['wall_s']} s, violated={res['violated']}")
         if res["violated"]:
             model_bad.append((j[0], res["violated"]))
             continue
-        if res.get("coverage_zero"):
-            ctx.notes.append(f"{j[0]}: spec actions never taken: {res['coverage_zero']}")
+        never = set(res.get("coverage_zero") or []) if never is None else never & set(res.get("coverage_zero") or [])
         p = parse_probes(res["out"])
         if not p:
             raise MachineryError(f"no probes printed by TLC for {j[0]}")
         probes += p
     ctx.coverage["tlc_model_violations"] = [f"{a}: {b}" for a, b in model_bad]
+    if never:
+        ctx.notes.append(f"spec actions never taken in any configuration: {sorted(never)}")
 
     # ---------------------------------------------------------------- (2) replay of every probe on the real classes
     probes.sort(key=lambda it: (it[0], len(it[1]), json.dumps(it[1:6])))
